@@ -278,7 +278,9 @@ def tagsOf (out : Outcome) (inp : Input) : List String :=
   (if (out.afterGc.zip (inp.probes.map (fun p => (getInfo p).1))).any (fun (a, b) => a.scraping.length < b.scraping.length)
    then ["gcDelete"] else []) ++
   (if out.reqs.any (·.any C08.isPostT) then ["post"] else []) ++
-  (if C04.sizesOK inp then [] else ["negativeSize"])
+  (if C04.sizesOK inp then [] else ["negativeSize"]) ++
+  (if C05.swrOK swrFloat inp.opt then [] else ["swrRoundsDown"]) ++
+  (if C05.nodupKeys inp then [] else ["duplicateKeys"])
 
 def judge (inp : Input) (ob : Obs) : Verdict :=
   let scheds := candidatesScheds swrFloat inp
